@@ -89,6 +89,8 @@ def o_q_request(sim, op, spec, out):
     elif form == "derived":
         want_map = [[c, M.current_spelling(ue[0]), ue[1]] for c, ue in args[0].items()]
         want_cap = kw.get("unknown_unit_caption")
+        if want_cap is None and len(args) > 1:
+            want_cap = args[1]  # CreateDerived(map, caption): the caption given positionally
     elif form == "derived_obtain":
         want_map = [[c, M.current_spelling(ue[0]), ue[1]] for c, ue in args[0].items()]
         want_cap = args[2] if len(args) > 2 else None
